@@ -124,10 +124,10 @@ def gen_case(rng, fmt, spicy=False):
         l10n.insert(rng.randint(0, len(l10n)), ("rec", it[1], w, frozenset()))
     if rng.random() < 0.25:
         insert_junk(rng, l10n)
-    if spicy and ref and rng.random() < 0.5:
-        i = rng.randrange(len(ref))
-        if ref[i][0] == "rec" and fmt != "po":
-            ref[i] = ("rec", ref[i][1], ref[i][2], frozenset(["spice"]))
+    if spicy and ref and fmt != "po":
+        for i in range(len(ref)):
+            if ref[i][0] == "rec" and rng.random() < 0.4:
+                ref[i] = ("rec", ref[i][1], ref[i][2], frozenset(["spice"]))
     return {"format": fmt, "ref": ref, "l10n": l10n}
 
 
@@ -150,7 +150,7 @@ def script_load(js):
 
 # -------------------------------------------------------------- rendering ---
 SPICE = {"properties": " %S <br/> <b>bold</b> \ufffd", "dtd": " <b>bold<br/>text</b> &amp; \ufffd",
-         "ini": " <br> \ufffd", "ftl": " { $n } \ufffd", "android": " it\\'s \ufffd %1$s",
+         "ini": " <br> \ufffd", "ftl": " { $n } \ufffd\n    .a = x\n    .b = y", "android": " it\\'s \ufffd %1$s",
          "po": " \ufffd <br>"}
 SPICE_L10N = {"properties": " %d \ufffd", "dtd": " <b>open &foo; \ufffd", "ini": " \ufffd",
               "ftl": " { $m } \ufffd\n    .extra = attr", "android": " it's \ufffd", "po": " \ufffd"}
@@ -575,6 +575,8 @@ def suite_compare(chk, work, model, fmt, n, spicy):
             chk.hist("notes", min(len(res[1][1]), 9))
             if tables.chk_sx:
                 chk.hist("cases_with_checker_findings", fmt)
+            if merge and any(sum(f[0] for f in row[2]) >= 2 for row in tables.chk_sx):
+                chk.hist("merging_with_entity_having_2+_errors", fmt)
     if descs:
         chk.sample({"suite": f"COMPARE-{fmt}", "case": descs[len(descs) // 2], "impl": impl[len(descs) // 2]})
     if model:
